@@ -184,6 +184,27 @@ def user_checks(a, b):
                     bad.append(('issorted-of-sortview-opposite', 'key=%r reverse=%s' % (key, rev)))
     guard('issorted', c_issorted)
 
+    def c_ragged():
+        # sort and issorted must apply the SAME lexical ordering to ragged rows: a missing cell reads as None, cells
+        # beyond the header do not count (two-field tables, key=None)
+        body = [(a, b), (a,), (a, None), (b, a), (b,), (a, b, b), (a, b, a), ()]
+        t2 = [('x', 'y')] + body
+        for rev in (False, True):
+            sv = etl.sort(t2, reverse=rev)
+            if not etl.issorted(sv, reverse=rev):
+                bad.append(('issorted-of-sort-ragged', 'key=None reverse=%s: issorted(sort(t)) is False' % rev))
+            if not etl.issorted(list(sv), reverse=rev):
+                bad.append(('issorted-of-sort-ragged', 'key=None reverse=%s, materialised' % rev))
+        # rows that sort treats as tied must not pass the strict test
+        for pair in ([(a,), (a, None)], [(a, b), (a, b, a)], [(), (None,)]):
+            tt = [('x', 'y')] + pair
+            for rev in (False, True):
+                if etl.issorted(tt, reverse=rev, strict=True):
+                    bad.append(('issorted-strict-ragged-tie', '%r reverse=%s accepted as strictly sorted' % (pair, rev)))
+                if not etl.issorted(tt, reverse=rev):
+                    bad.append(('issorted-ragged-tie', '%r reverse=%s rejected' % (pair, rev)))
+    guard('issorted-ragged', c_ragged)
+
     def c_select():
         one = _col([a])
         sel = lambda f, *args: len(rows(f(one, 'x', *args))) == 1
